@@ -24,6 +24,7 @@ type caseLog struct {
 	sb     strings.Builder
 	h      hash.Hash64
 	labels map[string]bool
+	hint   []int // indexes a generator wants probed (C03: indexes around an engineered coincidence)
 }
 
 func newCase(prop string) *caseLog {
